@@ -13,6 +13,7 @@ use serde_json::json;
 use std::collections::BTreeMap;
 
 pub struct C07;
+const LARGE_T: u32 = 100;
 
 #[derive(Clone, Debug, Serialize, Deserialize)]
 pub struct Case {
@@ -51,7 +52,15 @@ impl Property for C07 {
             (Tier::Thorough, false) => 1500,
             (Tier::Thorough, true) => 150,
         };
-        (0..6).map(|s| (s, per)).collect()
+        let mut v: Vec<(u32, u32)> = (0..6).map(|s| (s, per)).collect();
+        // large thresholds (16, 17, 20, 33 coefficients; n = t or t + 1)
+        v.push((LARGE_T, match (tier, suite.slow()) {
+            (Tier::Quick, false) => 3,
+            (Tier::Quick, true) => 1,
+            (Tier::Thorough, false) => 16,
+            (Tier::Thorough, true) => 3,
+        }));
+        v
     }
     fn chunk(&self, suite: SuiteId) -> u32 {
         if suite.slow() { 1 } else { 5 }
@@ -60,6 +69,12 @@ impl Property for C07 {
         96
     }
     fn strategy(&self, suite: SuiteId, tier: Tier, stratum: u32) -> BoxedStrategy<Case> {
+        if stratum == LARGE_T {
+            let ts: Vec<u16> = if suite.slow() { vec![16, 17] } else { vec![16, 17, 20, 33] };
+            return (proptest::sample::select(ts), 0u16..2, idspec_strategy(None), msg_short_strategy(), any::<u64>())
+                .prop_map(|(t, extra, ids, msg, seed)| Case { shape: Shape { n: t + extra, t }, ids, msg, seed })
+                .boxed();
+        }
         let style = ID_STYLES[(stratum % 6) as usize];
         let nmax = match (tier, suite.slow()) {
             (Tier::Quick, false) => 7,
@@ -73,7 +88,7 @@ impl Property for C07 {
     }
     fn required_labels(&self, tier: Tier) -> Vec<(String, u64)> {
         let m = tier.pick(10, 100);
-        vec![("t=n".into(), m), ("n>=5".into(), m), ("tr:internal-key-odd".into(), 3), ("tr:internal-key-even".into(), 3)]
+        vec![("t=n".into(), m), ("n>=5".into(), m), ("t>=16".into(), 6), ("tr:internal-key-odd".into(), 3), ("tr:internal-key-even".into(), 3)]
     }
     fn check(&self, suite: SuiteId, case: &Case, ctx: &mut Ctx) -> CheckResult {
         dispatch!(suite, check(case, ctx))
@@ -145,7 +160,12 @@ fn check<C: Suite>(case: &Case, ctx: &mut Ctx) -> CheckResult {
     let shape = Shape { n: case.shape.n.max(2), t: case.shape.t.clamp(2, case.shape.n.max(2)) };
     let (n, t) = (shape.n as usize, shape.t as usize);
     let desc = format!("n={n} t={t} ids={}", case.ids.style.name());
+    if t >= 16 {
+        ctx.label("t>=16");
+    }
     let idv = make_ids::<C>(case.ids, n);
+    // the ciphersuite crate's own keys::dkg::part1/2/3 give what the generic functions give
+    crate::wrappers::differential::<C>(ctx, "C07", crate::wrappers::Part::Dkg, case.seed)?;
     let run = dkg_rounds::<C>(shape, &idv, case.seed, "C07")?;
     let exp = expected_from_run::<C>(ctx, &run, &idv)?;
     if t == n {
@@ -184,6 +204,16 @@ fn check<C: Suite>(case: &Case, ctx: &mut Ctx) -> CheckResult {
         kps.insert(*id, kp);
     }
     let (_, pk) = first_pk.unwrap();
+    // the public key package rebuilt from the broadcast commitments alone agrees with what every participant computed
+    // (Taproot: part3 post-processes its output, the plain commitments describe the untweaked key)
+    if !C::SID.taproot() {
+        let cm: BTreeMap<Id<C>, &frost::keys::VerifiableSecretSharingCommitment<C>> = idv.iter().map(|i| (*i, run.r1_pkg[i].commitment())).collect();
+        ctx.label("from-dkg-commitments");
+        match frost::keys::PublicKeyPackage::<C>::from_dkg_commitments(&cm) {
+            Ok(p2) => ensure!(ctx, p2.verifying_key() == pk.verifying_key() && p2.verifying_shares() == pk.verifying_shares() && p2.min_signers() == pk.min_signers(), "C07/from-dkg-commitments-differs", "PublicKeyPackage::from_dkg_commitments over the broadcast commitments differs from the package part3 returned ({desc})"),
+            Err(e) => ctx.fail("C07/from-dkg-commitments-differs", format!("PublicKeyPackage::from_dkg_commitments failed: {e:?} ({desc})"))?,
+        }
+    }
     let key_odd = C::SID.taproot() && y_is_odd::<C>(&pk.verifying_key().to_element());
     ctx.eval(&format!("{n},{t},{},{key_odd}", case.ids.style.name()), (n, t) != (5, 3) || case.ids.style != IdStyle::Default);
     ctx.label(&format!("id:{}", case.ids.style.name()));
